@@ -248,8 +248,9 @@ def ring_cases(ctx):
 
 
 # ------------------------------------------------------------------ (d) end-to-end with build files
-def gen_build_case(rng):
-    mts = [systems.gen_moltype(rng, 'MA', nres=rng.randint(3, 7), shape=rng.choice(['path', 'path', 'tree', 'ring']))]
+def gen_build_case(rng, ring_with_restraint=False):
+    mts = [systems.gen_moltype(rng, 'MA', nres=rng.randint(5, 9) if ring_with_restraint else rng.randint(3, 7),
+                               shape='ring' if ring_with_restraint else rng.choice(['path', 'path', 'tree', 'ring']))]
     if rng.random() < 0.5:
         mts.append(systems.gen_moltype(rng, 'MB', nres=rng.randint(2, 5), shape='path'))
     mols = [('MA', rng.randint(1, 2))] + ([('MB', rng.randint(1, 2))] if len(mts) > 1 else [])
@@ -260,8 +261,12 @@ def gen_build_case(rng):
     lo = 0
     hi = rng.randint(1, mols[0][1])
     lines += ['[ molecule ]', f'MA {lo} {hi}']
-    cyc = mt['shape'] == 'ring' and rng.random() < 0.7
+    cyc = mt['shape'] == 'ring' and (ring_with_restraint or rng.random() < 0.7)
     kinds = rng.sample(['sphere', 'cylinder', 'rectangle', 'rw', 'dist'], rng.randint(1, 3))
+    if cyc and (ring_with_restraint or rng.random() < 0.6) and 'dist' not in kinds:
+        kinds = ['dist'] + kinds[:1]
+    if ring_with_restraint:
+        kinds = ['dist']
     c = [b / 2 for b in box]
     for kind in kinds:
         resname = rng.choice(['RA', 'RB'])
@@ -285,9 +290,10 @@ def gen_build_case(rng):
             ang = rng.choice([90.0, -90.0, 120.0, 60.0])
             lines += ['[ rw_restriction ]', f'{resname} {start} {stop} {nrm[0]} {nrm[1]} {nrm[2]} {ang}']
             decl.append({'kind': 'rw', 'resname': resname, 'start': start, 'stop': stop, 'normal': nrm, 'angle': ang, 'mols': [lo, hi]})
-        elif kind == 'dist' and mt['shape'] == 'path' and not cyc:
-            a, b = 0, mt['nres'] - 1
-            d = round(rng.uniform(0.4, 0.35 * (mt['nres'] - 1)), 3)
+        elif kind == 'dist' and (cyc or (mt['shape'] == 'path' and not cyc)):
+            # on a molecule declared cyclic the restraint is given in addition to the ring closure (depth-first chain from residue 0)
+            a, b = 0, (rng.randint(1, mt['nres'] - 2) if cyc else mt['nres'] - 1)
+            d = round(rng.uniform(0.4, max(0.45, 0.3 * (min(b, mt['nres'] - b) if cyc else b))), 3)
             tol = rng.choice([0.0, 0.1])
             lines += ['[ distance_restraints ]', f'{a} {b} {d} {tol}']
             decl.append({'kind': 'dist', 'a': a, 'b': b, 'd': d, 'tol': tol, 'mols': [lo, hi]})
@@ -383,10 +389,24 @@ def run_build_case(case, timeout=60):
                             avg = sum(eng.get_interaction(mol_idx, mol_idx, x, y)[0] for x, y in edges) / len(edges)
                             dist = eng.pbc_min_dist(np.array(mol.nodes[a]['position']), np.array(mol.nodes[b]['position']))
                             rec['selected'] += 1
-                            if not mol.has_edge(a, b):
+                            declared = any(d['kind'] == 'dist' and {d['a'], d['b']} == {a, b} for d in case['decl'])
+                            if not declared:
+                                rec['cycle_pairs'] = rec.get('cycle_pairs', 0) + 1
+                            if not declared and not mol.has_edge(a, b):
                                 rec['bad'].append(f"cyclic molecule {mol_idx}: restrained pair ({a},{b}) is not joined by an edge")
                             if not (dd - tol - 1e-7 <= dist <= dd + tol + avg + 1e-7):
-                                rec['bad'].append(f"cyclic molecule {mol_idx}: ring closure distance {dist:.4f} outside [0, {avg:.4f}]")
+                                rec['bad'].append(f"cyclic molecule {mol_idx}: distance {dist:.4f} of the restrained pair ({a},{b}) outside "
+                                                  f"[{dd - tol:.4f}, {dd + tol + avg:.4f}]")
+                        # every edge of the ring is realised: the residues it joins end within one step (+ tolerance window)
+                        for x, y in mol.edges:
+                            dist = eng.pbc_min_dist(np.array(mol.nodes[x]['position']), np.array(mol.nodes[y]['position']))
+                            step = eng.get_interaction(mol_idx, mol_idx, x, y)[0]
+                            edges = list(mol.search_tree.edges)
+                            avg = sum(eng.get_interaction(mol_idx, mol_idx, u, v)[0] for u, v in edges) / len(edges)
+                            if dist > max(step, avg) + 1e-6 and dist > avg + 1e-6:
+                                rec['bad'].append(f"cyclic molecule {mol_idx}: ring edge ({x},{y}) is left open: its residues are {dist:.4f} apart "
+                                                  f"(one step is {step:.4f}, closing window [0, {avg:.4f}])")
+                                break
             return out
         return run_system
 
@@ -451,6 +471,8 @@ def run(ctx):
     milestone_cases(ctx, ctx.n(300, 3000))
     ring_cases(ctx)
     bcases = [c for _, c in core.corpus_cases('C07')]
+    # a molecule declared cyclic that also carries a build-file distance restraint: always exercised
+    bcases += [gen_build_case(ctx.rng, ring_with_restraint=True) for _ in range(ctx.n(3, 20))]
     bcases += [gen_build_case(ctx.rng) for _ in range(ctx.n(12, 120))]
     if ctx.broken:
         bcases = bcases[:3]
